@@ -506,7 +506,7 @@ def build_value(td, vd, frozen=False):
         shape = tuple(vd['shape'])
         a = np.array(flat, dtype=npt).reshape(shape)
         if vd['order'] == 'F':
-            a = np.asfortranarray(a)
+            a = a.copy(order='F')        # (np.asfortranarray would promote a 0-d array to 1-d)
         elif vd['order'] == 'S' and len(shape) >= 1:
             big = np.zeros(tuple(2 * d for d in shape), dtype=npt)
             view = big[tuple(slice(None, None, 2) for _ in shape)]
@@ -706,7 +706,9 @@ def qualifiers(td, vd, fails):
         if 0 in vd['shape']:
             out.append('zero-axis')
     elif k in ('int32', 'int64', 'float32', 'float64') and isinstance(vd, list):
-        out.append('numpy-scalar' if vd[0] == 'np' else 'python-int-as-float')
+        plain = vd[1] if vd[0] == 'np' else float(vd[1]).hex()
+        if not fails(td, plain):          # the flavour (not the number) is necessary for the failure
+            out.append('numpy-scalar' if vd[0] == 'np' else 'python-int-as-float')
     return out
 
 
@@ -750,7 +752,7 @@ def canon(t, v):
             return ('BAD-interval', type(v).__name__, repr(v))
         return ('iv', canon(t.point_type, v.start), canon(t.point_type, v.end), bool(v.includes_start), bool(v.includes_end))
     if isinstance(t, hl.tndarray):
-        if not isinstance(v, np.ndarray):
+        if not isinstance(v, np.ndarray) or v.ndim != t.ndim:
             return ('BAD-ndarray', type(v).__name__, repr(v))
         return ('nd', tuple(int(d) for d in v.shape), str(v.dtype),
                 tuple(canon(t.element_type, x.item()) for x in np.nditer(v, flags=['zerosize_ok'], order='C')))
